@@ -539,7 +539,9 @@ class NNFizer(DagWalker):
     @handles(op.THEORY_OPERATORS)
     def walk_theory_op(self, formula, **kwargs):
         #pylint: disable=unused-argument
-        return None
+        # Only reached for boolean-typed theory terms (e.g., a select
+        # on an array of booleans): they are atoms
+        return formula
 
 # EOC NNFizer
 
@@ -711,6 +713,10 @@ class PrenexNormalizer(DagWalker):
     @handles(op.THEORY_OPERATORS)
     def walk_theory_op(self, formula: FNode, **kwargs):
         #pylint: disable=unused-argument
+        if self.env.stc.get_type(formula).is_bool_type():
+            # A boolean-typed theory term (e.g., a select on an
+            # array of booleans) is an atom
+            return [], formula
         return None
 
 # EOC PrenexNormalizer
